@@ -2,7 +2,7 @@
 import itertools
 
 from ..fold import new_interp
-from ..models import cells, runs_of
+from ..models import cells, runs_of, view_problem
 from ..objinterp import Obj
 from ..report import AnalysisError
 from .c14 import mk
@@ -15,7 +15,9 @@ EXPLANATION = (
     "list and str indexing are the oracle, nothing is re-implemented: every index and every slice bound in [-len-2, len+2] and "
     "None; + with every pool value and with plain str on either side; * 0..3; join of every list of up to 3 items drawn from "
     "{'', 'x', a one-run value, a two-run value, a value without runs} for a plain, an empty and a formatted separator; len(); "
-    "+ and * also with operands whose memoised views were filled beforehand; every result's own .s and len() must agree with its runs."
+    "every operation also with operands whose memoised views (.s, len, width, terminal string) were filled beforehand; every result's own .s, "
+    "len() and str() (what a terminal shows for it, through the reference SGR machine) must agree with its runs; after every operation "
+    "every FmtStr operand must still hold the runs it was built from and agree with itself (L8)."
 )
 NOT_DECIDED = ("values longer than the pool's, slice steps (not supported by the class by design: NotImplementedError), repeat counts "
                "above 3, item lists longer than 3.")
@@ -39,6 +41,7 @@ GROUPS = {
     "L5-repetition-like-str": "f * n",
     "L6-join-like-str": "sep.join(items)",
     "L7-len-is-number-of-characters": "len(f)",
+    "L8-operands-read-the-same-afterwards": "the operands of every operation of the scope, read again after it",
 }
 
 
@@ -53,15 +56,9 @@ def _res(it, r):
     if isinstance(v, Obj) and v.cls == "FmtStr":
         rs = runs_of(v)
         text = "".join(t for t, _ in rs)
-        try:
-            s_view = it.folder.obj_attr(v, "s")
-            n_view = it.callm(v, "__len__")
-        except Exception as e:
-            if getattr(e, "name", None) is None:
-                raise AnalysisError("views of a result outside the evaluated subset: %s" % e)
-            return ("incoherent", "reading .s of the result raises %s" % e.name, None)
-        if s_view != text or n_view != ("ok", len(text)):
-            return ("incoherent", "the result's runs spell %r but its .s is %r and its len() %s" % (text, s_view, n_view), None)
+        why = view_problem(it, v)
+        if why is not None:
+            return ("incoherent", "the result disagrees with itself: " + why, None)
         return ("ok", text, cells(rs))
     return ("ok", v, None)
 
@@ -86,14 +83,21 @@ def check(src, rep):
     rep.trusted_base = ["CPython ast", "sa/consteval.py", "sa/absint.py", "sa/objinterp.py"]
     it = new_interp(src)
     f = src.func("formatstring", "FmtStr.__getitem__")
+    if rep.tier == "thorough" and len(POOL) < 12:
+        # every way of cutting 'abcde' into three (possibly empty) runs
+        for i in range(0, 6):
+            for j in range(i, 6):
+                POOL.append(("'abcde' cut at %d and %d" % (i, j), [("abcde"[:i], A1), ("abcde"[i:j], A2), ("abcde"[j:], A3)]))
     jobs = []
     for pi, (label, runs) in enumerate(POOL):
         n = sum(len(t) for t, _ in runs)
         for i in range(-n - 2, n + 3):
             jobs.append(("index", pi, i))
+            jobs.append(("index*", pi, i))
         bounds = [None] + list(range(-n - 2, n + 3))
         for a, b in itertools.product(bounds, repeat=2):
             jobs.append(("slice", pi, (a, b)))
+            jobs.append(("slice*", pi, (a, b)))
         for qi in range(len(POOL)):
             jobs.append(("add", pi, qi))
             jobs.append(("add*", pi, qi))
@@ -118,15 +122,19 @@ def check(src, rep):
         kind, a, b = job
         looked = kind.endswith("*")
         kind = kind.rstrip("*")
+        operands = []        # (label, model value, runs it was built from)
         try:
             if kind == "join":
                 sep_runs = POOL[a][1] if isinstance(a, int) else None
                 sep_v = mk(it, *sep_runs) if sep_runs is not None else it.call1("formatstring", "fmtstr", a)[1]
                 sep_t, sep_c = text_cells(sep_runs) if sep_runs is not None else (a, [(ch, ()) for ch in a])
+                if sep_runs is not None:
+                    operands.append(("the separator", sep_v, sep_runs))
                 vals, ts, cs = [], [], []
                 for x in b:
                     if isinstance(x, int):
                         vals.append(mk(it, *POOL[x][1]))
+                        operands.append(("item %s" % POOL[x][0], vals[-1], POOL[x][1]))
                         t, c = text_cells(POOL[x][1])
                     else:
                         vals.append(x)
@@ -145,6 +153,7 @@ def check(src, rep):
             else:
                 label, runs = POOL[a]
                 v = mk(it, *runs)
+                operands.append((label, v, runs))
                 if looked:
                     _look(it, v)
                     label += " (looked at before)"
@@ -165,6 +174,7 @@ def check(src, rep):
                     rule = "L3-negative-index-and-bounds-like-str" if any(x is not None and x < 0 for x in b) else "L2-slice-like-str"
                 elif kind == "add":
                     w = mk(it, *POOL[b][1])
+                    operands.append((POOL[b][0], w, POOL[b][1]))
                     if looked:
                         _look(it, w)
                     t2, c2 = text_cells(POOL[b][1])
@@ -188,6 +198,15 @@ def check(src, rep):
                     want = ("ok", len(text), None)
                     desc = "len(%s)" % label
                     rule = "L7-len-is-number-of-characters"
+            if got == want:
+                # a str never changes by being used: neither may a FmtStr (a later operation on it would not act like str)
+                for olabel, ov, oruns in operands:
+                    now = runs_of(ov)
+                    if cells(now) != cells(oruns) or "".join(t for t, _ in now) != "".join(t for t, _ in oruns):
+                        return ("L8-operands-read-the-same-afterwards", desc, "afterwards the operand (%s) holds the runs %s; it was built from %s" % (olabel, now, oruns))
+                    why = view_problem(it, ov)
+                    if why is not None:
+                        return ("L8-operands-read-the-same-afterwards", desc, "afterwards the operand (%s) disagrees with itself: %s" % (olabel, why))
         except AnalysisError as e:
             return ("error", "%s: %s" % (job, e), "")
         if got == want:
